@@ -293,6 +293,57 @@ def ownership_part(ck, tier):
     ck.sample({"part": "ownership", "interleaving": list(orders[len(orders) // 2]), "classes": 5})
 
 
+def readonly_part(ck, tier):
+    """read-outs do not change the chain, and the caller's start array is the caller's: after every kind of read-out (and after the caller
+    re-used its start array for something else) the stored rows and their log-probabilities read as before and still belong together"""
+    from inference.mcmc import GibbsChain, PcaChain, HamiltonianChain, EnsembleSampler
+    from inference.mcmc.gibbs import MetropolisChain
+    post = GaussPost(3)
+    for name in ("GibbsChain", "MetropolisChain", "PcaChain", "HamiltonianChain", "EnsembleSampler"):
+        ens = name == "EnsembleSampler"
+        start = np.random.default_rng(2).normal(size=(7, 3)) if ens else np.array([0.1, 0.2, 0.3])
+        keep_start = start.copy()
+        ck.case(("readonly", name))
+        try:
+            if ens:
+                ch = EnsembleSampler(posterior=post, starting_positions=start, display_progress=False)
+            elif name == "HamiltonianChain":
+                ch = HamiltonianChain(posterior=post, grad=post.grad, start=start, display_progress=False)
+            else:
+                ch = {"GibbsChain": GibbsChain, "MetropolisChain": MetropolisChain, "PcaChain": PcaChain}[name](posterior=post, start=start, widths=np.full(3, 0.5),
+                                                                                                                  display_progress=False)
+            start += 5.0                                   # the caller re-uses its array for something else
+            start *= -3.0
+            ch.rng = np.random.default_rng(seed() + 9)
+            ch.advance(12 if ens else 60)
+            b0 = {} if ens else {"burn": 0}
+            full = np.array(ch.get_sample(**b0), dtype=float)
+            fullp = np.array(ch.get_probabilities(**b0), dtype=float)
+            first_ok = ens or np.array_equal(full[0], keep_start)
+            import warnings
+            with warnings.catch_warnings(), np.errstate(all="ignore"):
+                warnings.simplefilter("ignore")
+                for kw in (dict(interval=0.9), dict(interval=0.5, burn=3, thin=2), dict(interval=0.95, samples=10), dict(interval=1.0), dict(interval=0.3, burn=0)):
+                    ch.get_interval(**kw)
+                for i in range(3):
+                    ch.get_parameter(i, **b0)
+                    ch.get_marginal(i, burn=2, thin=1)
+                ch.mode()
+            again = np.array(ch.get_sample(**b0), dtype=float)
+            againp = np.array(ch.get_probabilities(**b0), dtype=float)
+            belong = all(abs(post(r) - q) <= 1e-9 * (1 + abs(q)) for r, q in zip(again, againp))
+            same_p = np.array_equal(againp, fullp)
+        except Exception as ex:
+            ck.violation("read-out raised", {"class": name, "error": repr(ex)[:300]}, site=f"{name}.readout")
+            continue
+        if not first_ok:
+            ck.violation("the recorded starting point is the point the sampler was given, whatever the caller does with its array afterwards",
+                         {"class": name, "given": keep_start, "recorded_first_sample": full[0]}, site=f"{name}.__init__:ownership")
+        if not (same_p and belong and np.array_equal(again, full)):
+            ck.violation("ProbsBelong after read-outs: get_interval / get_marginal / get_parameter / mode leave the stored log-probabilities with their own rows",
+                         {"class": name, "probabilities_unchanged": bool(same_p), "rows_still_belong": bool(belong)}, site=f"{name}.get_interval:chain-modified")
+
+
 class _Boom(Exception):
     pass
 
@@ -442,6 +493,7 @@ def run(tier):
     reload_ensemble_part(ck, tier)
     defaults_part(ck, tier)
     interrupted_part(ck, tier)
+    readonly_part(ck, tier)
     pt_part(ck, tier)
     from harness import repotests
     repotests.run_part(ck, "C03")          # traces of the repository's own MCMC tests, judged by TestRunTrace.tla
